@@ -647,7 +647,13 @@ Varable failures: {var_failed}
 
     def _add2Varlist(self, varkeys):
         varliststr = getattr(self, 'VAR-LIST', '')
-        keys = [k for k in varliststr.split() if k in self.variables]
+        if len(varliststr) % 16 == 0:
+            # 16-character fields: a 16-character name has no blank after it
+            keys = [varliststr[i:i + 16].strip()
+                    for i in range(0, len(varliststr), 16)]
+        else:
+            keys = varliststr.split()
+        keys = [k for k in keys if k in self.variables]
         newkeys = set(varkeys).difference(keys + ['ETFLAG', 'TFLAG'])
         # as in getVarlist: only variables with the IOAPI dimensions and
         # a name that fits a 16-character field are listed
